@@ -645,7 +645,8 @@ def conditions(tier, seed):
                     if cs['cost'] >= 3 and 'd' in cs['uses'] and cid != 'join':
                         nd = 1
                     if cs['api'] is not None:
-                        if cn == 0:
+                        if cn == 0 or (cs['cost'] == 3 and cid.startswith('orderBy')):
+                            # (orderBy: both key selectors - ties are only observable with the `$ mod 2` key)
                             out.append(cond_for(key, cs, lams, 'api', n, nd, nones, margin, t, emax=1))
                         elif has_lam and cs['text'] and cn == 1 and not alias and not cid.startswith('generate'):
                             # the second lambda of the family goes through YAQL text (yaql lambda, parser-level call);
